@@ -1,7 +1,9 @@
 /-
   The exporting process: pkg/exporter/process.go SendSet, dataRecSanityCheck, updateTemplate,
-  createAndSendIPFIXMsg (IPFIX path; the JSON path is not modelled).
-  Modelled, not verified: net.Conn.Write writes the whole slice or fails; time.Now().Unix() is a
+  createAndSendIPFIXMsg (IPFIX path: `sendBuilt`; with the outcome of the Write: `sendBuiltW`), and the
+  decisions of the JSON path (`sendBuiltJ`; the JSON text itself is not modelled).
+  Modelled, not verified: net.Conn.Write writes the whole slice, fails, or is short (`WriteOutcome`;
+  `sendBuilt` = every Write succeeds); time.Now().Unix() is a
   parameter; sync/atomic on the sequence number (uint32 wrap-around = mod 2^32).
 -/
 import IpfixModel.Model.Builder
@@ -77,5 +79,153 @@ def ExpState.sendBuilt (st : ExpState) (time : Nat) (s : SetB) : ExpState × Sen
               { fieldCount := r.elems.length, minLen := minDataRecLen (r.elems.map (·.1)) }) st1
           else st1
         (st2, .ok w.length w)
+
+/-! ## Write outcomes
+
+  `net.Conn.Write(b)` returns `(n, err)`. The three shapes createAndSendIPFIXMsg tells apart:
+  `ok` = `(len b, nil)`; `fail` = `(_, err)` with `err ≠ nil` (nothing reached the peer: the connections
+  of the correspondence runs write nothing on a failing Write); `short k` = `(k, nil)`: `k` bytes went
+  out and no error was reported (the io.Writer contract gives `k ≤ len b`; `k = len b` is `ok`). -/
+
+inductive WriteOutcome where
+  | ok
+  | fail
+  | short (k : Nat)
+  deriving Repr, DecidableEq
+
+/-- `err == nil && bytesSent == len(bytesSlice)` for a message of `len` bytes -/
+def WriteOutcome.complete (w : WriteOutcome) (len : Nat) : Bool :=
+  match w with
+  | .ok => true
+  | .fail => false
+  | .short k => k == len
+
+/-- SendSet on a built set, the single `Write` of the IPFIX path having the outcome `w`.
+    The code, in order: set type, sanity of every record of a data set, UpdateLenInHeader, the
+    sequence counter of a data set is advanced (atomic.AddUint32) BEFORE the message is built and
+    written, CreateIPFIXMsg, Write. A Write that fails, or that is short ("could not send the complete
+    message on the connection"), makes createAndSendIPFIXMsg and SendSet return an error: the
+    templates of a template set are NOT recorded (updateTemplate runs only after a nil error), and
+    the counter keeps the advance it already got. -/
+def ExpState.sendBuiltW (st : ExpState) (time : Nat) (s : SetB) (w : WriteOutcome) : ExpState × SendResult :=
+  match s.ty with
+  | .undefined => (st, .err)
+  | ty =>
+    if ty = .data ∧ !(s.recs.all fun r => r.tid == s.setId && st.sane r) then (st, .err)
+    else
+      let s := s.updateLen
+      let seq' := if ty = .data then (st.seq + s.recs.length) % 4294967296 else st.seq
+      let st1 := { st with seq := seq' }
+      match createMsg s st.dom seq' time with
+      | none => (st1, .err)      -- no Write is attempted
+      | some m =>
+        if w.complete m.length then
+          let st2 :=
+            if ty = .template then
+              s.recs.foldl (fun acc r => acc.register r.tid
+                { fieldCount := r.elems.length, minLen := minDataRecLen (r.elems.map (·.1)) }) st1
+            else st1
+          (st2, .ok m.length m)
+        else (st1, .err)         -- the Write failed or was short: nothing recorded, counter already advanced
+
+/-- does SendSet get as far as calling `Write` (type, sanity and size checks passed)? -/
+def ExpState.reachesWrite (st : ExpState) (time : Nat) (s : SetB) : Bool :=
+  match (st.sendBuilt time s).2 with
+  | .ok _ _ => true
+  | .err => false
+
+/-- the bytes that reach the connection during SendSet under the outcome `w`: the whole message,
+    nothing, or its first `k` bytes; nothing at all when SendSet does not get to the Write -/
+def ExpState.wroteW (st : ExpState) (time : Nat) (s : SetB) (w : WriteOutcome) : Bytes :=
+  match (st.sendBuilt time s).2 with
+  | .ok _ m =>
+    match w with
+    | .ok => m
+    | .fail => []
+    | .short k => m.take k
+  | .err => []
+
+/-! ## JSON mode (ExporterInput.SendJSONRecord): the DECISIONS of SendSet
+
+  In JSON mode SendSet runs the same set-type and sanity checks, then createAndSendJSONMsg for a data
+  set: one `Write` per record, of a JSON text that is not modelled (only the number of writes is).
+  A template set writes nothing and is recorded. The sequence counter is never touched. -/
+
+/-- the data types createAndSendJSONMsg has a case for (octetArray has none: `default:` error; the
+    micro/nanosecond types are refused explicitly; the structured types have none) -/
+def jsonSupported : DataType → Bool
+  | .octetArray | .dateTimeMicroseconds | .dateTimeNanoseconds
+  | .basicList | .subTemplateList | .subTemplateMultiList | .invalid => false
+  | _ => true
+
+/-- values encoding/json refuses: a float that is NaN or ±Inf (UnsupportedValueError), a net.IP whose
+    length is not 0, 4 or 16 (MarshalText: AddrError) -/
+def jsonValueOK (e : Elem) : Bool :=
+  match e.1.ty, e.2 with
+  | .float32, .num n => (n / 8388608) % 256 != 255
+  | .float64, .num n => (n / 4503599627370496) % 2048 != 2047
+  | .ipv4Address, .bytes b => b.length == 0 || b.length == 4 || b.length == 16
+  | .ipv6Address, .bytes b => b.length == 0 || b.length == 4 || b.length == 16
+  | _, _ => true
+
+/-- the JSON object is a map keyed by element NAME: of several elements with one name the last one's
+    value is what gets encoded -/
+def jsonLastOfName : List Elem → List Elem
+  | [] => []
+  | e :: t => if t.any (fun e' => e'.1.name == e.1.name) then jsonLastOfName t else e :: jsonLastOfName t
+
+/-- a record createAndSendJSONMsg renders and writes: every element's type has a case (the switch runs
+    over all elements), and every value that ends up in the map can be encoded -/
+def jsonRecOK (r : Rec) : Bool :=
+  (r.elems.all fun e => jsonSupported e.1.ty) && (jsonLastOfName r.elems).all jsonValueOK
+
+/-- records written before the first one that cannot be rendered -/
+def jsonWrites : List Rec → Nat
+  | [] => 0
+  | r :: t => if jsonRecOK r then jsonWrites t + 1 else 0
+
+inductive SendResultJ where
+  /-- nil error after `writes` calls of Write (one per record) -/
+  | ok (writes : Nat)
+  /-- an error after `writes` calls of Write -/
+  | err (writes : Nat)
+  deriving Repr, DecidableEq
+
+/-- the refusals of SendSet that precede every Write, in both modes: Undefined set type; a data set
+    with a record whose template id is not the Set ID, or that fails dataRecSanityCheck (unknown
+    template, field count, shorter than the template's minimum length) -/
+def ExpState.refuses (st : ExpState) (s : SetB) : Bool :=
+  match s.ty with
+  | .undefined => true
+  | .data => !(s.recs.all fun r => r.tid == s.setId && st.sane r)
+  | _ => false
+
+/-- SendSet on a built set in JSON mode -/
+def ExpState.sendBuiltJ (st : ExpState) (s : SetB) : ExpState × SendResultJ :=
+  match s.ty with
+  | .undefined => (st, .err 0)
+  | .data =>
+    if !(s.recs.all fun r => r.tid == s.setId && st.sane r) then (st, .err 0)
+    else if s.recs.all jsonRecOK then (st, .ok s.recs.length)
+    else (st, .err (jsonWrites s.recs))
+  | .template =>
+    (s.recs.foldl (fun acc r => acc.register r.tid
+      { fieldCount := r.elems.length, minLen := minDataRecLen (r.elems.map (·.1)) }) st, .ok 0)
+  | .other => (st, .ok 0)
+
+/-- JSON mode with the outcome `w` of the FIRST Write (the later ones succeed): a failing Write ends
+    the call with an error; a short one goes unnoticed (createAndSendJSONMsg adds up the counts and
+    never compares them with the lengths) -/
+def ExpState.sendBuiltJW (st : ExpState) (s : SetB) (w : WriteOutcome) : ExpState × SendResultJ :=
+  match w, st.sendBuiltJ s with
+  | .fail, (st', .ok (_ + 1)) => (st', .err 0)
+  | .fail, (st', .err (_ + 1)) => (st', .err 0)
+  | _, r => r
+
+/-- number of `Write` calls SendSet makes in JSON mode when all of them succeed -/
+def ExpState.writesJ (st : ExpState) (s : SetB) : Nat :=
+  match (st.sendBuiltJ s).2 with
+  | .ok n => n
+  | .err n => n
 
 end Ipfix
